@@ -56,7 +56,7 @@ from simcore.world import W
 from simcore.simnet import NET, Peer, NoFaults, step, make_running
 from simcore.runner import HarnessLimit
 
-from circuits import Component, Event, Manager, handler
+from circuits import Component, Event, handler
 from circuits.core import Value
 from circuits.core.pollers import EPoll, Poll, Select
 from circuits.node import Node, remote
@@ -99,7 +99,7 @@ PROBES = ['call:c2s', 'call:s2c', 'call:concurrent', 'call:big', 'completed', 'f
           'cut:in-multibyte', 'packet:split', 'fw:send-blocked', 'fw:recv-blocked', 'topo:B1', 'topo:B2', 'topo:BC', 'hostile:valid', 'hostile:mutated',
           'hostile:bytes', 'hostile:meta', 'hostile:value', 'hostile:oversized', 'fault:peer_abort', 'hostile:probe-call', 'behav:raise', 'behav:gen',
           'mode:fire', 'mode:call', 'mode:fwd', 'junk-dispatch', 'note:send', 'note:send_to', 'note:send_all', 'no-result-event-in-flight-with-call',
-          'callee:plain', 'callee:meta', 'callee:error', 'callee:wrong-id', 'callee:duplicate', 'callee:pieces', 'hostile-result-meta', 'call:to-raw-peer']
+          'root:*', 'root:app', 'root:svc', 'non-star-root-with-raising-handler', 'behav:gen-raise', 'callee:plain', 'callee:meta', 'callee:error', 'callee:wrong-id', 'callee:duplicate', 'callee:pieces', 'hostile-result-meta', 'call:to-raw-peer']
 TIERS = {
     'quick': dict(runs=24000, wall=30, chunk=50, cfg=dict(max_calls=6, max_ops=26, big=[3000, 4096, 5000, 9000], max_hostile=5, junk=[5000, 20000])),
     'thorough': dict(runs=400000, wall=600, chunk=200, cfg=dict(max_calls=12, max_ops=60, big=[3000, 4090, 4096, 5000, 9000, 20000, 70000],
@@ -136,6 +136,8 @@ WATCH_FWD = ['name', 'args', 'kwargs', 'channels', 'stopped', 'cancelled', 'comp
              'complete_channels', 'cause', 'effects']
 WATCH = WATCH_FWD + ['alert_done', 'waitingHandlers', 'failed', 'handler']
 ABSENT = '<absent>'
+RAISES = ('raise', 'gen-raise')      # the handler raises at once / as a coroutine after a yield
+ROOT_CHANNELS = ['*', '*', '*', 'app', 'svc']
 META_VALS = [True, False, 0, 1, -1, 'x', '', [], {}, None, ['node_result'], 'node', 5.5, [[1]]]
 
 
@@ -162,6 +164,7 @@ class Proc:
         self.alive = True
         self.conns = []
         self.connected = set()
+        self.root_channel = '*'
 
 
 class Conn:
@@ -322,7 +325,12 @@ class Sim:
         p = Proc(tag)
         self.procs[tag] = p
         enter(p)
-        p.m = make_running(Manager())
+        # the application's root component and its channel: the manager fires `exception` events on it
+        p.root_channel = self.ch.choice(ROOT_CHANNELS, 'root-channel')
+        p.m = make_running(type('Root', (Component,), {'channel': p.root_channel})())
+        self.ctx.stat('root:' + p.root_channel)
+        self.ctx.log('root', tag, p.root_channel)
+        self.ctx.trace('process %s: root component on channel %r' % (tag, p.root_channel))
         self.ch.choice(POLLERS, 'poller')().register(p.m)
         kw = {}
         if fw:
@@ -588,7 +596,7 @@ class Sim:
                 if key == 'value':
                     c.feats.add('valuekey:call')
                 c.kwargs[key] = self.gen_value(allow_big, c.feats, 'call')
-        c.behav = 'ret' if probe else ['ret', 'ret', 'none', 'gen', 'raise'][ch.weighted([5, 3, 2, 2, 2 if self.allow_raise else 0], 'behav')]
+        c.behav = 'ret' if probe else ['ret', 'ret', 'none', 'gen', 'raise', 'gen-raise'][ch.weighted([5, 3, 2, 2] + ([2, 1] if self.allow_raise else [0, 0]), 'behav')]
         c.result = None
         if c.behav in ('ret', 'gen'):
             c.result = 'pong' if probe else self.gen_value(allow_big, c.feats, 'result')
@@ -633,7 +641,7 @@ class Sim:
         self.by_tok[c.tok] = c
         ctx.stat('call:' + c.dirn)
         ctx.stat('mode:' + c.mode)
-        if c.behav in ('raise', 'gen'):
+        if c.behav in RAISES or c.behav == 'gen':
             ctx.stat('behav:' + c.behav)
         if c.concurrent:
             ctx.stat('call:concurrent')
@@ -654,7 +662,7 @@ class Sim:
             'PROBE call' if probe else 'call', c.tok, src.tag, 'raw peer' if to_raw else dst.tag, conn.k, c.mode, c.name, short(c.args), short(c.kwargs), c.chans,
             c.success, c.failure, c.notify,
             'raw peer will answer: %s' % self.plan_text(c.plan) if to_raw else
-            'handler will %s%s' % (c.behav, '' if c.behav in ('none', 'raise') else ' ' + short(c.result)),
+            'handler will %s%s' % (c.behav, '' if c.behav in ('none',) + RAISES else ' ' + short(c.result)),
             ' [blocked by %s firewall]' % c.blocked if c.blocked else ''))
         # "the event attributes the dispatcher relies on": what the local event looks like before any peer had a say
         c.before = self.snap(c.event, fwd=c.mode == 'fwd')
@@ -710,7 +718,7 @@ class Sim:
         n.kwargs = {}
         if ch.chance(1, 3, 'note-kw'):
             n.kwargs[ch.choice(KW_KEYS, 'note-kw-key')] = self.gen_value(False, n.feats, 'call')
-        n.behav = ['ret', 'none', 'gen', 'raise'][ch.weighted([5, 2, 2, 2 if self.allow_raise else 0], 'note-behav')]
+        n.behav = ['ret', 'none', 'gen', 'raise', 'gen-raise'][ch.weighted([5, 2, 2] + ([2, 1] if self.allow_raise else [0, 0]), 'note-behav')]
         n.result = ['note-result', n.tok]        # never equal to the result of an awaited call
         n.failure, n.notify, n.success = ch.chance(1, 4, 'failure-flag'), ch.chance(1, 5, 'notify-flag'), ch.chance(1, 4, 'success-flag')
         n.chans = ('app',)
@@ -852,8 +860,15 @@ class Sim:
                 if J(got) != J(exp):
                     self.fail('C19/serialisation/%s-changed' % what, '%s: handler saw %s %s, sent %s' % (tok, what, short(got, 200), short(exp, 200)))
                     break
+        if c.behav in RAISES and p.root_channel != '*':
+            ctx.stat('non-star-root-with-raising-handler')
         if c.behav == 'raise':
             raise RuntimeError('handler of %s fails' % tok)
+        if c.behav == 'gen-raise':
+            def gr():
+                yield None
+                raise RuntimeError('coroutine handler of %s fails after a yield' % tok)
+            return gr()
         if c.behav == 'gen':
             def g():
                 yield None
@@ -1163,7 +1178,7 @@ class Sim:
         if clause != 'never-ran' and 'delim:result' in feats and any(o is None and done for _, _, o, done in packets_of(back)):
             return K_DELIM, 'its result contains the packet delimiter ~~~, which cuts the result packet in two'
         answered = wire_id is not None and any(is_value(o) and J(o.get('id')) == J(wire_id) for _, _, o, _ in packets_of(back))
-        if clause == 'never-arrived' and c.behav == 'raise' and len(c.runs) == 1 and not answered:
+        if clause == 'never-arrived' and c.behav in RAISES and len(c.runs) == 1 and not answered:
             return K_RAISE, 'the handler raised: no result packet is ever sent for a failed event'
         # (a cut is harmless once reassembly works, the "value" heuristic is not: it goes first)
         if clause == 'never-ran' and 'valuekey:call' in feats:
@@ -1174,7 +1189,7 @@ class Sim:
             # more value packets with this id on the call's own connection than calls with this id: the far end answered somebody else's call here
             vals = [o for _, _, o, _ in packets_of(self.tx_stream(c.conn, rcv)) if is_value(o) and J(o.get('id')) == J(wire_id)]
             nc = len([1 for _, _, o, _ in packets_of(tx) if is_call(o) and J(o.get('id')) == J(wire_id)])
-            foreign = [o for o in vals if (not o.get('errors') if c.behav == 'raise' else J(o.get('value')) != J(c.result))]
+            foreign = [o for o in vals if (not o.get('errors') if c.behav in RAISES else J(o.get('value')) != J(c.result))]
             sent_ids = {J(o.get('id')) for _, _, o, _ in packets_of(tx) if is_call(o)} | {J(wire_id)}
             stray = [o for _, _, o, done in packets_of(back) if done and is_value(o) and J(o.get('id')) not in sent_ids]
             if (len(vals) > nc or foreign or stray) and len(c.dst.conns) > 1:
@@ -1252,7 +1267,7 @@ class Sim:
             return self.fail(key or 'C19/result/never-arrived', '%s: handler ran in %s but the sender\'s waiting handler (%s) was not resumed with a result within the bound%s'
                              % (tag, c.dst.tag, c.mode, '; ' + why if why else ''))
         val, err, _ = c.done
-        if c.behav == 'raise':
+        if c.behav in RAISES:
             if not err:
                 key, why = self.diagnose(c, 'wrong-value')
                 return self.fail(key or 'C19/result/error-flag-lost', '%s: the handler raised but the sender obtained %s without an error flag%s' % (tag, val[:100], '; ' + why if why else ''))
